@@ -101,7 +101,7 @@ func c02Fixture(t TB, caps []uint64) (*sess, []uint32, []ref.Key) {
 func TestC02ExhaustiveShortSequences(t *testing.T) {
 	ev.Rule("C02(i): EXHAUSTIVE - all 1555 sequences of length 0..4 (thorough tier: all 9331 of length 0..5) over the alphabet {A, A' (same content, second valid signature), B, limit, limit+1, negative} for one slot, each on a fresh (device, slot); oracle f(S) on the set of distinct datagrams + full-state comparison with the sequential model after every datagram")
 	const capacity = 1000 // limit 1350
-	s, ids, keys := c02Fixture(t, []uint64{capacity, capacity, capacity})
+	s, ids, keys := c02Fixture(t, []uint64{capacity, capacity, capacity, capacity, capacity, capacity, capacity, capacity, capacity})
 	defer s.cleanup()
 	alpha := c02Alphabet()
 	var seqs [][]int
@@ -129,7 +129,7 @@ func TestC02ExhaustiveShortSequences(t *testing.T) {
 		dev := next / 4032
 		slot := uint32(next % 4032)
 		next++
-		if dev >= len(ids) {
+		if dev >= 3 {
 			t.Fatalf("harness: out of fresh slots")
 		}
 		s.setClock(slot)
@@ -151,6 +151,30 @@ func TestC02ExhaustiveShortSequences(t *testing.T) {
 		}
 		if len(seq) >= 4 && next%97 == 0 {
 			ev.Sample("c02:exhaustive-sequence", map[string]interface{}{"sequence": names, "final": setValue(S, capacity)})
+		}
+	}
+	// The slots at the edges of the window and of its two weeks, each with the
+	// sequences that exercise every rule (the enumeration above reaches the last
+	// slots of the window only in the thorough tier): one device per sequence.
+	edgeSeqs := [][]int{{0}, {0, 2}, {4}, {5, 0}, {0, 1, 0}, {3, 3}}
+	for k, seq := range edgeSeqs {
+		dev := 3 + k
+		for _, slot := range []uint32{0, 1, 2015, 2016, 2017, 4030, 4031} {
+			s.setClock(slot)
+			S := map[string]ref.Report{}
+			names := ""
+			for _, li := range seq {
+				r := alpha[li].mk(keys[dev], ids[dev], slot, capacity)
+				names += alpha[li].name + " "
+				s.datagram(r.Encode(), alpha[li].name)
+				S[string(r.Encode())] = r
+				got := s.S.VerifSnapshot().Reports[ids[dev]][slot].PowerOutput
+				if want := setValue(S, capacity); got != want {
+					s.fail("sequence [%s] on device %d slot %d (edge of the window): published value %d, set rule gives %d", names, ids[dev], slot, got, want)
+				}
+				ev.Eval(1)
+			}
+			ev.NonTrivial(fmt.Sprintf("c02|edge|%d|%s", slot, names))
 		}
 	}
 	ev.Exhaustive(fmt.Sprintf("c02: all sequences of length<=%d over {A,A',B,limit,limit+1,negative} (%d)", maxLen, len(seqs)))
